@@ -171,8 +171,9 @@ func (r *SortReg) seqSort(elem string, elemGo types.Type, name string) *SeqInfo 
 	if name == "Str" {
 		nilEq = "true" // strings are pure contents
 	}
-	d("(assert (forall ((a %s) (b %s)) (! (=> (and (ext_%s a b) (= (%s a) (%s b)) %s (=> (and (<= 0 (extd_%s a b)) (< (extd_%s a b) (%s a))) (= (%s a (extd_%s a b)) (%s b (extd_%s a b))))) (= a b)) :pattern ((ext_%s a b)))))",
-		name, name, name, si.Len, si.Len, nilEq, name, name, si.Len, si.At, name, si.At, name, name)
+	// extensionality, instantiated on demand: the marker term ext_S(a,b) is only the trigger
+	d("(assert (forall ((a %s) (b %s)) (! (=> (and (= (%s a) (%s b)) %s (=> (and (<= 0 (extd_%s a b)) (< (extd_%s a b) (%s a))) (= (%s a (extd_%s a b)) (%s b (extd_%s a b))))) (= a b)) :pattern ((ext_%s a b)))))",
+		name, name, si.Len, si.Len, nilEq, name, name, si.Len, si.At, name, si.At, name, name)
 	return si
 }
 
